@@ -134,18 +134,31 @@ def match_known(prop, sig, known):
 # ----------------------------------------------------------------------------
 # running children
 # ----------------------------------------------------------------------------
-def parse_result_line(out):
-    res = None
+def parse_pairs(out):
+    """All (candidate path, result) pairs a child printed, plus the last bare RESULT."""
+    pairs = []
+    last = None
     cand = None
     for ln in out.splitlines():
-        if ln.startswith("RESULT "):
+        if ln.startswith("CANDIDATE "):
+            cand = ln[10:].strip()
+        elif ln.startswith("RESULT "):
             try:
                 res = json.loads(ln[7:])
             except ValueError:
-                pass
-        elif ln.startswith("CANDIDATE "):
-            cand = ln[10:].strip()
-    return res, cand
+                continue
+            last = res
+            if cand:
+                pairs.append((cand, res))
+                cand = None
+    return pairs, last
+
+
+def parse_result_line(out):
+    pairs, last = parse_pairs(out)
+    if pairs:
+        return pairs[-1][1], pairs[-1][0]
+    return last, None
 
 
 def child_cmd(engine, sub, tier, seed, child, nchild, frm, count, scheds, out, replay_out, digests=None):
@@ -199,9 +212,11 @@ def run_part(prop, engine, sub, tier, seed, params, nchild=None, max_candidates=
                     raise HarnessError("child %d of %s/%s wrote no summary" % (c, prop, sub))
                 summaries.append(json.load(open(out)))
             elif rc == 3 and cand and res:
-                rf = json.load(open(cand))
-                candidates.append({"path": cand, "result": res, "file": rf, "engine": engine, "sub": sub})
-                # partial coverage of an E2 child is written before it exits
+                pairs, _ = parse_pairs(so)
+                for cpath, cres in pairs:
+                    rf = json.load(open(cpath))
+                    candidates.append({"path": cpath, "result": cres, "file": rf, "engine": engine, "sub": sub})
+                # an E2 child writes its (complete) coverage before it exits
                 if os.path.exists(out):
                     summaries.append(json.load(open(out)))
                 nxt = rf.get("run_index", count) + 1
